@@ -692,6 +692,8 @@ def _shrink_scenario(sc, scdir_base, refs, want_kind):
         run = cur["runs"][ri]
         fl = list(run.get("faults") or [])
         j = 0
+        if run.get("expect"):
+            j = len(fl)  # a trigger's data faults are part of what makes it a trigger
         while j < len(fl):
             cand_run = dict(run, faults=fl[:j] + fl[j + 1:])
             cand = dict(cur, runs=cur["runs"][:ri] + [cand_run] + cur["runs"][ri + 1:])
@@ -889,7 +891,7 @@ def trigger_scenarios(quick=False):
     T = []
     count = [0]
 
-    def t(name, cfg, note=""):
+    def t(name, cfg, note="", faults=None):
         pres = ("absent", "sentinel", {"run": CFGS["hid-amber"]})
         entries = ("run_pdb2pqr", "cli", "cli_module")
         k = count[0]
@@ -898,9 +900,10 @@ def trigger_scenarios(quick=False):
         if quick:
             combos = [(k % 3, k % 3), ((k + 1) % 3, (k + 2) % 3)]
         for pi, ei in combos:
-            T.append({"tag": "trigger", "name": name, "pre": pres[pi],
-                      "runs": [{"cfg": cfg, "entry": entries[ei], "expect": "fail",
-                                "want_ref": False}]})
+            run = {"cfg": cfg, "entry": entries[ei], "expect": "fail", "want_ref": False}
+            if faults:
+                run["faults"] = faults
+            T.append({"tag": "trigger", "name": name, "pre": pres[pi], "runs": [run]})
 
     # unreadable or empty input
     for kind in ("empty", "header", "html", "binary"):
@@ -959,6 +962,30 @@ def trigger_scenarios(quick=False):
           dict(U, argv=U["argv"] + extra, file_content={"userff": {
               "kind": "replace", "old": old_line,
               "new": old_line.rsplit("\t", 1)[0] + f"\t{charge + 0.2:.6f}"}}, **more))
+    # a parameter record that lost a column makes the force-field file unusable, whether
+    # or not the structure happens to need that record
+    t("userff-record-missing-column:present-residue", dict(U, file_content={"userff": {
+        "kind": "replace", "old": old_line + "\t", "new": old_line + "\n#"}}))
+    absent = next(r for r in ("TRP", "MET", "HIS", "TYR", "PHE", "ARG") if r not in [
+        g["resname"] for g in corpus.polymer_groups(corpus.residue_groups(
+            corpus.structure_text(U).splitlines()))])
+    aline = next("\t".join(l.split("\t")[:3]) for l in corpus.load("custom-ff.dat").splitlines()
+                 if l.startswith(absent + "\tCA\t"))
+    t("userff-record-missing-column:absent-residue", dict(U, file_content={"userff": {
+        "kind": "replace", "old": aline + "\t", "new": aline + "\n#"}}))
+    t("builtin-ff-record-missing-column:PARSE-ALA-CB",
+      dict(base, argv=["--ff=PARSE"]),
+      faults=[{"k": "data", "file": "PARSE.DAT", "fault": {
+          "kind": "replace", "old": "ALA\tCB\t0.000\t2.0", "new": "ALA\tCB\t0.000"}}])
+    t("builtin-ff-record-missing-column:AMBER-TRP-CA",
+      dict(base, argv=["--ff=AMBER"]),
+      faults=[{"k": "data", "file": "AMBER.DAT", "fault": {
+          "kind": "replace", "old": "TRP\tCA\t-0.027500\t1.9080", "new": "TRP\tCA\t-0.027500"}}])
+    # a total that is not a number at all is not integral either
+    for tok in ("nan", "inf", "-inf", "1e400"):
+        t(f"nonfinite-charge-userff:{tok}",
+          dict(U, file_content={"userff": {"kind": "replace", "old": old_line,
+                                           "new": old_line.rsplit("\t", 1)[0] + f"\t{tok}"}}))
     # the same on a highly charged structure (1AJJ, net charge -5) with small but real
     # deviations (2-4x the documented 1e-3 tolerance; residue charges carry 4 decimals)
     U5 = dict(U, item="1AJJ.pdb", window=None)
